@@ -124,6 +124,41 @@ func c02Scenarios(c *vlib.Ctx) []c02Scenario {
 			}
 		}
 	}
+	// long scenarios that are part of every tier (the code's own 90/120 s command timeouts expire; they
+	// run side by side): a silent target, and a target whose executor is lost just before the request
+	// (the task has lost its executor id, the environment has not noticed yet)
+	if c.Tier != "thorough" {
+		out = append(out,
+			c02Scenario{Transition: "START_ACTIVITY", Hosts: 2, Tasks: []c02Task{{Name: "victim", Critical: false, Mode: "direct", Host: 1, Outcome: "silent"}}},
+			c02Scenario{Transition: "CONFIGURE", Hosts: 2, Tasks: []c02Task{{Name: "victim", Critical: false, Mode: "fairmq", Host: 1, Outcome: "silent"}}},
+			c02Scenario{Transition: "STOP_ACTIVITY", Hosts: 2, Tasks: []c02Task{{Name: "victim", Critical: true, Mode: "direct", Host: 1, Outcome: "silent"}, {Name: "bn", Critical: false, Mode: "basic", Host: 2, Outcome: "ok"}}},
+			c02Scenario{Transition: "START_ACTIVITY", Hosts: 2, Tasks: []c02Task{{Name: "victim", Critical: true, Mode: "direct", Host: 1, Outcome: "exec-lost-before"}, {Name: "bc", Critical: true, Mode: "direct", Host: 2, Outcome: "ok"}}},
+			c02Scenario{Transition: "STOP_ACTIVITY", Hosts: 2, Tasks: []c02Task{{Name: "victim", Critical: true, Mode: "fairmq", Host: 1, Outcome: "exec-lost-before"}, {Name: "bc", Critical: true, Mode: "direct", Host: 2, Outcome: "ok"}, {Name: "bn", Critical: false, Mode: "basic", Host: 2, Outcome: "ok"}}},
+			// the same with the task manager's own bookkeeping of the failure held up (delay point at the
+			// start of its goroutine): the task has lost its executor id but its role is still active
+			c02Scenario{Transition: "START_ACTIVITY", Hosts: 2, Tasks: []c02Task{{Name: "victim", Critical: true, Mode: "direct", Host: 1, Outcome: "exec-lost-racing"}, {Name: "bc", Critical: true, Mode: "direct", Host: 2, Outcome: "ok"}}},
+		)
+	} else {
+		for _, tr := range []string{"START_ACTIVITY", "STOP_ACTIVITY", "RESET"} {
+			for _, vcrit := range []bool{true, false} {
+				for shape := 1; shape <= 3; shape++ {
+					sc := c02Scenario{Transition: tr, Hosts: 2}
+					oc := "exec-lost-before"
+					if shape == 3 {
+						oc = "exec-lost-racing"
+					}
+					sc.Tasks = append(sc.Tasks, c02Task{Name: "victim", Critical: vcrit, Mode: c02Modes[shape%3], Host: 1, Outcome: oc})
+					if shape == 1 || shape == 3 {
+						sc.Tasks = append(sc.Tasks, c02Task{Name: "bc", Critical: true, Mode: "direct", Host: 2, Outcome: "ok"})
+					}
+					if shape == 2 || shape == 3 {
+						sc.Tasks = append(sc.Tasks, c02Task{Name: "bn", Critical: false, Mode: "basic", Host: 2, Outcome: "ok"})
+					}
+					out = append(out, sc)
+				}
+			}
+		}
+	}
 	// double faults (seeded sample; thorough: all pairs of outcomes on a 3-task shape)
 	r := c.SubRand(777)
 	nPairs := 12
@@ -146,7 +181,64 @@ func c02Scenarios(c *vlib.Ctx) []c02Scenario {
 		}
 		out = append(out, sc)
 	}
-	return out
+	return c02SpreadLong(out, c.NBatch)
+}
+
+func (sc c02Scenario) long() bool {
+	for _, t := range sc.Tasks {
+		switch t.Outcome {
+		case "silent", "die", "undeliverable", "exec-lost-before", "exec-lost-racing":
+			return true
+		}
+	}
+	return false
+}
+
+// c02SpreadLong reorders the scenarios so that every batch (a contiguous slice) gets an equal share
+// of the scenarios in which the code's own 90/120 s timeouts expire, and starts with them.
+func c02SpreadLong(all []c02Scenario, nb int) []c02Scenario {
+	if nb <= 1 {
+		return all
+	}
+	var long, short []c02Scenario
+	for _, sc := range all {
+		if sc.long() {
+			long = append(long, sc)
+		} else {
+			short = append(short, sc)
+		}
+	}
+	n := len(all)
+	per := (n + nb - 1) / nb
+	res := make([]c02Scenario, 0, n)
+	for b := 0; b < nb && len(res) < n; b++ {
+		size := per
+		if n-len(res) < size {
+			size = n - len(res)
+		}
+		share := len(long) / (nb - b)
+		if len(long)%(nb-b) != 0 {
+			share++
+		}
+		if share > size {
+			share = size
+		}
+		res = append(res, long[:share]...)
+		long = long[share:]
+		k := size - share
+		if k > len(short) {
+			k = len(short)
+		}
+		res = append(res, short[:k]...)
+		short = short[k:]
+		for len(res) < (b+1)*per && len(res) < n && len(long) > 0 {
+			res = append(res, long[0])
+			long = long[1:]
+		}
+	}
+	res = append(res, long...)
+	res = append(res, short...)
+	return res
 }
 
 // c02DeployTimeout: short only where the scenario needs the timeout to expire.
@@ -210,7 +302,14 @@ func c02Run(c *vlib.Ctx, idx int, sc c02Scenario) {
 			wf.Tasks[i].Host = "host9"
 		}
 	}
-	s, err := coresim.Start(coresim.Options{Agents: agents, Detectors: stdDetectors(3), Files: wf.Files()})
+	opt := coresim.Options{Agents: agents, Detectors: stdDetectors(3), Files: wf.Files()}
+	for _, t := range sc.Tasks {
+		if t.Outcome == "exec-lost-racing" {
+			opt.Env = append(opt.Env, "VERIF_POINTS=taskman.executorFailed.beforeStateUpdate=sleep(600)")
+			break
+		}
+	}
+	s, err := coresim.Start(opt)
 	if err != nil {
 		c.Inconclusive("coresim start: " + truncate(err.Error(), 12000))
 		return
@@ -283,7 +382,7 @@ func c02Run(c *vlib.Ctx, idx int, sc c02Scenario) {
 
 	long := false
 	for _, t := range sc.Tasks {
-		if t.Outcome == "silent" || t.Outcome == "die" || t.Outcome == "undeliverable" {
+		if t.Outcome == "silent" || t.Outcome == "die" || t.Outcome == "undeliverable" || t.Outcome == "exec-lost-before" || t.Outcome == "exec-lost-racing" {
 			long = true
 		}
 	}
@@ -461,6 +560,19 @@ func c02Run(c *vlib.Ctx, idx int, sc c02Scenario) {
 		op := map[string]pb.ControlEnvironmentRequest_Optype{"START_ACTIVITY": pb.ControlEnvironmentRequest_START_ACTIVITY, "STOP_ACTIVITY": pb.ControlEnvironmentRequest_STOP_ACTIVITY, "RESET": pb.ControlEnvironmentRequest_RESET}[sc.Transition]
 		ev1 := len(s.Events())
 		nCmd0 := len(s.Master.Log())
+		for _, lt := range s.Master.Tasks() {
+			if tt, ok := roleOf(&lt); ok && (tt.Outcome == "exec-lost-before" || tt.Outcome == "exec-lost-racing") {
+				s.Master.Note("EXECUTOR-LOST", map[string]interface{}{"task": lt.RolePath})
+				s.Master.ExecutorFailure(lt.AgentID, lt.ExecutorID, false)
+				c.Count("executors_lost_before_request", 1)
+			}
+		}
+		for _, t := range sc.Tasks {
+			if t.Outcome == "exec-lost-before" || t.Outcome == "exec-lost-racing" {
+				time.Sleep(80 * time.Millisecond) // inside the environment watcher's 500 ms grace period
+				break
+			}
+		}
 		r, err := control(op)
 		armed = false
 		c.Count("transitions_judged", 1)
